@@ -264,12 +264,31 @@ def generate_and_run(rng, profile, max_client_ops=None):
             # the backend dies under a running player: a track that was accepted is refused from
             # now on, in whatever state the player is (static script: accept what was accepted
             # so far, refuse everything afterwards)
-            do(["play", None if rng.random() < 0.5 else sim.some_tlid(rng, 0.9)])
-            settle()
-            for _ in range(rng.randint(0, 2)):
-                do(gen_op(rng, sim, weights))
-                if rng.random() < 0.7:
+            good = [k for k in range(NTRACKS) if kinds[k] == "playable"]
+            whole_pass = len(good) >= 1 and rng.random() < 0.35
+            if whole_pass:
+                # ... after a whole random pass under repeat: the shuffle order is used up when the
+                # backend goes away (the retry budget must not be taken from what is left of it)
+                used0 = len(runner.env.attempts)
+                case["script"] = case["script"][:used0] + [False] * max(0, used0 - len(case["script"]))
+                runner.env.script = []
+                do(["clear"])
+                do(["setmode", 0, False])
+                do(["add", [rng.choice(good) for _ in range(rng.randint(2, 4))], None])
+                do(["setmode", 2, True])
+                do(["setmode", 1, True])
+                do(["play", None])
+                settle()
+                for _ in range(sim.n - 1):
+                    do(["next"])
                     settle()
+            else:
+                do(["play", None if rng.random() < 0.5 else sim.some_tlid(rng, 0.9)])
+                settle()
+                for _ in range(rng.randint(0, 2)):
+                    do(gen_op(rng, sim, weights))
+                    if rng.random() < 0.7:
+                        settle()
             used = len(runner.env.attempts)
             orig = case["script"]
             case["script"] = (orig[:used] + [False] * max(0, used - len(orig))) + [True] * 900
@@ -375,9 +394,17 @@ def generate_and_run(rng, profile, max_client_ops=None):
         if profile == "faults" and kinds.count("playable") == 0 and rng.random() < 0.7 and sim.n:
             # nothing is playable: the same request issued twice (and three times) in a row - every
             # one of them has to end, whatever the first one left behind
+            used_up = rng.random() < 0.3
             for which in (2, 1):
-                if rng.random() < (0.8 if which == 2 else 0.4) and not runner.trace[-1]["modes"][which]:
+                if (used_up or rng.random() < (0.8 if which == 2 else 0.4)) and not runner.trace[-1]["modes"][which]:
                     do(["setmode", which, True])
+            if used_up:
+                # random + repeat: play() walks through two whole orders and leaves the order used
+                # up; requests that name an entry have to end from there too
+                do(["play", None])
+                for _ in range(2):
+                    do(["play", sim.some_tlid(rng, 1.0)])
+                do(["previous"])
             for _ in range(rng.randint(2, 4)):
                 op = rng.choice([["next"], ["next"], ["previous"], ["play", None], ["play", sim.some_tlid(rng, 0.9)],
                                  ["atf"], ["seek", 6000], ["seek", 0]])
